@@ -125,6 +125,10 @@ func genCluster(seed uint64, tier, variant string) any {
 	if mode == "" {
 		mode = pick(r, "stable", "stable", "change", "change", "faults")
 	}
+	askpair := mode == "askpair"
+	if askpair {
+		mode = "change"
+	}
 	cl.Stable = mode == "stable" || mode == "replicas" || mode == "helpers" || mode == "helpers2" || mode == "cancel" || mode == "dedicated"
 	cl.MapOrder = mode == "helpers2"
 	cl.FaultFree = mode != "faults"
@@ -487,6 +491,53 @@ func genCluster(seed uint64, tier, variant string) any {
 	}
 	if mode == "helpers2" && r.IntN(4) == 0 {
 		p.Opt.DisableCache = true // the cached helpers must then behave like their plain counterparts
+	}
+	if askpair {
+		// directed: batches of cached reads over two slots that migrate to the same shard again and again, one of the
+		// migrations being cancelled while the other goes on - members that were sent on with ASKING together then meet
+		// different fates on the target
+		ka, kb := ks[0], ks[len(ks)/2]
+		for kb.shard == ka.shard && len(ks) > 2 {
+			kb = ks[r.IntN(len(ks))]
+			if r.IntN(20) == 0 {
+				break
+			}
+		}
+		to := (ka.shard + 1) % nsh
+		if to == kb.shard {
+			to = (to + 1) % nsh
+		}
+		p.Tasks = nil
+		for ti := 0; ti < 3; ti++ {
+			var calls []CallSpec
+			for ci := 0; ci < 6; ci++ {
+				c := CallSpec{Kind: pick(r, "mcache", "mcache", "multi"), TTLMs: 60_000}
+				for k, m := 0, 2+r.IntN(3); k < m; k++ {
+					sl := pick(r, ka, kb)
+					key := "{" + tagForSlot(sl.slot) + "}q" + strconv.Itoa(r.IntN(3))
+					c.Cmds = append(c.Cmds, CmdSpec{Argv: []string{"VKTAG", key, fmt.Sprintf("t%d.c%d.k%d", ti, ci, k), pick(r, "s", "i")}, Keys: 1, Flag: "ro"})
+				}
+				calls = append(calls, c)
+			}
+			p.Tasks = append(p.Tasks, calls)
+		}
+		p.Ghosts = nil
+		step := 5
+		for cyc := 0; cyc < 5; cyc++ {
+			p.Ghosts = append(p.Ghosts, GhostSpec{Kind: "migrate-start", MinStep: step, Argv: []string{strconv.Itoa(ka.slot), strconv.Itoa(to)}})
+			p.Ghosts = append(p.Ghosts, GhostSpec{Kind: "migrate-start", MinStep: step, Argv: []string{strconv.Itoa(kb.slot), strconv.Itoa(to)}})
+			step += 8 + r.IntN(25)
+			first, second := ka, kb
+			if r.IntN(2) == 0 {
+				first, second = kb, ka
+			}
+			p.Ghosts = append(p.Ghosts, GhostSpec{Kind: "migrate-cancel", MinStep: step, Argv: []string{strconv.Itoa(first.slot)}})
+			step += 8 + r.IntN(25)
+			p.Ghosts = append(p.Ghosts, GhostSpec{Kind: "migrate-cancel", MinStep: step, Argv: []string{strconv.Itoa(second.slot)}})
+			step += 3 + r.IntN(10)
+		}
+		cl.MaxMoved = pick(r, 0, 0, 3)
+		cl.ToReplicas, cl.ReplicaOnly, cl.Selector = "", false, ""
 	}
 	if cl.Cancel {
 		cl.SendBuf = pick(r, 64, 256, 1024)
